@@ -172,7 +172,7 @@ class TrCard:
 
     def atoms(self):
         out = [('*' if self.starred else '') + f'tr{self.id}']
-        out.extend(fnum(v) for v in self.origin)
+        out.extend('j' if v is None else fnum(v) for v in self.origin)
         ent = list(self.entries)
         while ent and ent[-1] is None and self.mflag is None:
             ent.pop()
@@ -197,6 +197,9 @@ class TrSpec:
         '''Atoms of the parenthesised part.'''
         if self.number is not None:
             vals = [str(self.number)]
+        elif getattr(self, 'raw_atoms', None):
+            # the numbers exactly as the generator spelled them (shorthand)
+            vals = list(self.raw_atoms)
         else:
             vals = [fnum(v) for v in self.origin]
             ent = list(self.entries or [])
@@ -478,6 +481,36 @@ def option_atoms(deck, cel, only=None):
     for name in order:
         atoms.extend(groups.get(name, []))
     return atoms
+
+
+def renumber_surface(deck, old, new):
+    '''Give surface `old` the number `new` (cards and cell expressions).'''
+    def swap(expr):
+        if expr[0] == 's':
+            return ('s', new if expr[1] == old else expr[1], expr[2], expr[3])
+        if expr[0] == '^':
+            return expr
+        if expr[0] in ('#', 'g'):
+            return (expr[0], swap(expr[1]))
+        return (expr[0],) + tuple(swap(sub) for sub in expr[1:])
+    for sur in deck.surfs:
+        if sur.id == old:
+            sur.id = new
+    for cel in deck.cells:
+        cel.geom = swap(cel.geom)
+
+
+def vary_largest_surface(deck, rng, world=999):
+    '''The outer sphere of the generated decks is numbered 999, which makes
+    the surfaces the converter generates start at 1001 in every deck.  Give
+    it another number now and then.'''
+    used = {s.id for s in deck.surfs}
+    moved = any(c.trcl is not None for c in deck.cells)
+    pool = [998, 997, 300] if moved else [998, 300, 4321, 20000, 1000, 1001]
+    pool = [n for n in pool if n not in used]
+    if world in used and pool:
+        renumber_surface(deck, world, rng.choice(pool))
+        deck.tags.add('world-surface.renumbered')
 
 
 def shuffle_options(deck, rng, share=0.5):
